@@ -255,6 +255,12 @@ def is_stringy(p: Poly) -> bool:
     return a is not None and a[0] in ("str", "tpl", "join")
 
 
+_OPERATOR_FUNCS: Dict[str, Any] = {
+    "add": ast.Add, "sub": ast.Sub, "mul": ast.Mult, "floordiv": ast.FloorDiv, "truediv": ast.Div, "mod": ast.Mod,
+    "lshift": ast.LShift, "rshift": ast.RShift, "and_": ast.BitAnd, "or_": ast.BitOr, "xor": ast.BitXor, "pow": ast.Pow,
+}
+
+
 class PyFlow:
     def __init__(
         self,
@@ -1560,6 +1566,16 @@ class PyFlow:
                 alias_name, alias_recv = fa[1].rsplit(".", 1)[1], V(fa[1].rsplit(".", 1)[0])
             elif fa is not None and fa[0] == "attr" and isinstance(fa[2], str):
                 alias_name, alias_recv = fa[2], fa[1]
+        # the operator module spelled as a function: operator.add(a, b) is a + b
+        op_name: Optional[str] = None
+        if alias_name is not None and alias_recv is not None and show(alias_recv) == "operator":
+            op_name = alias_name
+        elif isinstance(f, ast.Attribute) and isinstance(f.value, ast.Name) and f.value.id == "operator" and "operator" not in p.env:
+            op_name = f.attr
+        if op_name in _OPERATOR_FUNCS and len(e.args) == 2 and not e.keywords:
+            syn_b = ast.copy_location(ast.BinOp(left=e.args[0], op=_OPERATOR_FUNCS[op_name](), right=e.args[1]), e)
+            ast.fix_missing_locations(syn_b)
+            return self.ev(syn_b, p, depth, no_effect=no_effect)
         callee_val: Optional[Poly] = None
         if alias_name is None and isinstance(f, ast.Name) and f.id in p.env and f.id not in self.funcs and f.id not in p.funcs:
             # the function / class called is itself a computed value (class_ = pick(...); class_(...))
